@@ -18,6 +18,27 @@ CHECKS = {
             "Trusts the harness' reference model of the documented rule; each pattern registered "
             "at most once per type.",
             "DESIGN.md 4/C15"),
+    'C01': ("differential testing (PIT eval vs exported network) over Hypothesis-generated NetSpec "
+            "networks and mask patterns + exhaustive time-mask enumeration",
+            "Generated-input search: thousands of small networks from a grammar of the supported ops, "
+            "each with a drawn alive/dead pattern per width group and a (prefix, comb-step) time mask "
+            "per Conv1d; oracle = the exported plain network (BN statistics transplanted as the "
+            "property allows) must reproduce the PIT eval output to 1e-4 relative and its layer "
+            "hyper-parameters must equal summary() and an independent reference derived from the "
+            "drawn pattern. All reachable binarised time masks for K<=9 (thorough <=12) are "
+            "enumerated exhaustively on 1/2-layer TCNs.",
+            "Float32 tolerance 1e-4*(1+max|y|); inputs sampled (seeded normals x {0.1,1,10}); CPU only; "
+            "grammar restricted to ops/paddings the README declares supported.",
+            "DESIGN.md 4/C01"),
+    'C04': ("Hypothesis-generated networks/masks; PIT discrete cost vs from-scratch metric counter "
+            "on the exported network (numel of real tensors, MACs via forward hooks)",
+            "Generated-input search over the C01 grammar (plus same-padded Conv1d, twice-applied "
+            "layers, full_cost, dict specs); the oracle shares no code with plinio for params/ops "
+            "(+no-bias): it counts actual exported tensors and per-call-site output positions; "
+            "gap8 is the registered function re-evaluated on exported layers.",
+            "gap8 reference re-uses plinio's gap8 formula (only the plumbing of effective sizes is "
+            "checked for it); relative tolerance 1e-4.",
+            "DESIGN.md 4/C04"),
 }
 
 NOT_YET = "check not built yet in this session; planned with property-based testing per DESIGN.md section 4"
